@@ -134,6 +134,24 @@ def applyOp (d : Doc) : SExp → Option (Except Err Unit × Doc)
       | .ok s => match s with
         | .set .. => pure (setDelItem s k d)
         | _ => pure (.error .type, d)
+  | .list [.atom "scopeset", .atom k, v] => do
+      let k ← decText k
+      let v ← decNode v
+      match d.noTarget with
+      | some _ => pure (.error .value, d)
+      | none => pure (scopeSetItem k v d)
+  | .list [.atom "scopedel", .atom k] => do
+      let k ← decText k
+      match d.noTarget with
+      | some _ => pure (.error .value, d)
+      | none => pure (scopeDelItem k d)
+  | .list [.atom "scopeget", .atom k] => do
+      let k ← decText k
+      match d.noTarget with
+      | some _ => pure (.error .value, d)
+      | none => match scopeGetItem d k with
+        | .ok _ => pure (.ok (), d)
+        | .error e => pure (.error e, d)
   | .list [.atom "getitem", keys, .atom k] => do
       let keys ← dTexts keys
       let k ← decText k
